@@ -52,6 +52,7 @@ type mListener struct {
 	RouterRef string `json:"router"`    // router_config_name of the proxy filter
 	Inspector bool   `json:"inspector"` // a plain attribute that an update must replace
 	IdleSec   int    `json:"idle_s"`
+	StreamTag string `json:"stream_tag,omitempty"` // one stream filter of the harness type "c12_tag" carrying this tag ("" = no stream filter)
 }
 
 type model struct {
